@@ -79,3 +79,32 @@ Qed.
 Theorem C03_no_lookup_path_is_ub : forall cfg typed k s h, Inv s -> hpair32 h ->
   (exists x, probe_storage_world cfg typed k s h = ROk x) /\ (exists x, probe_storage_arch cfg k s h = ROk x).
 Proof. intros. split; [by apply probe_world_ok|by apply probe_arch_ok]. Qed.
+
+(* ---------------------------------------------------------------- forged handles against the oracle, whole histories *)
+From Gecs Require Import Spec OracleSim OracleRaw.
+
+(** "Any handle value whatsoever ... either reports absence (or panics cleanly), or, only when bit-identical to the
+    handle of a live entity, reaches exactly that entity", as the specification oracle reads it on implementation
+    traces.  For ALL histories of the core language of OracleSim extended with world-level probes through ANY
+    raw pair of 32-bit words - never issued, stale, naming another archetype or none, generation zero, slot index
+    beyond the capacity (the documented debug assertion) - the oracle accepts the whole run of the model. *)
+Theorem C03_forged_handles_refine_the_oracle : forall cfg d qs caps w ops,
+  wrapping cfg = false -> wf_decl d -> NoDup (da_id <$> wd_archs d) ->
+  length caps = length (wd_archs d) -> new_world (wd_archs d) caps = Ok w tt ->
+  forallb (l1_op d) ops = true ->
+  spec_check cfg d qs (ONew caps :: ops) (run cfg d qs (ONew caps :: ops)) = None.
+Proof. exact core_language_with_forged_handles_refines_the_oracle. Qed.
+
+Definition c03_core_decl : wdecl := WD [DA 0%N 0 [DC 0%N 0]; DA 3%N 1 [DC 0%N 0; DC 1%N 1]] [].
+Definition c03_core_ops : list op :=
+  [OCreate 1 5%N; OCreate 0 6%N; OProbe LWorld KEnt TAny (RRaw 3%N 1%N); OProbe LWorld KEnt TAny (RRaw 3%N 2%N);
+   OProbe LWorld KEnt TAny (RRaw 259%N 1%N); OProbe LWorld KEnt TAny (RRaw 7%N 1%N); OProbe LWorld KEnt TAny (RRaw 3%N 0%N);
+   OProbe LWorld KEnt TAny (RRaw 4294967043%N 1%N); ODestroy LWorld KEnt TAny (RIssued 0); OProbe LWorld KEnt TAny (RRaw 3%N 1%N);
+   OCreate 1 7%N; OProbe LWorld KEnt TAny (RRaw 3%N 2%N); OProbe LWorld KEnt TAny (RRaw 0%N 1%N)].
+Example C03_core_language_instance :
+  forallb (l1_op c03_core_decl) c03_core_ops = true /\
+  spec_check (Config false false true) c03_core_decl [] (ONew [1; 1] :: c03_core_ops)
+             (run (Config false false true) c03_core_decl [] (ONew [1; 1] :: c03_core_ops)) = None /\
+  nth 6 (run (Config false false true) c03_core_decl [] (ONew [1; 1] :: c03_core_ops)) [] = [2; 6; 2; 6; 2; 6; 2; 6]%N /\
+  nth 8 (run (Config false false true) c03_core_decl [] (ONew [1; 1] :: c03_core_ops)) [] = [2; 5; 2; 5; 2; 5; 2; 5]%N.
+Proof. vm_compute. repeat split; reflexivity. Qed.
